@@ -132,6 +132,16 @@ def render_and_compare(tokens, evs, labels, actual):
         elif kind == 4:
             s, isq = fmt(f, value_of(t[3], t[4], t[2], evs)), False
         else: raise Broken('correspondence', 'token kind %r' % (kind,))
+        if isq:
+            # a number computed from the grid: read the whole number the file has at this position (its printed form may be longer
+            # or shorter than the model's, e.g. 5.386500000000001 for 5.3865) and compare numerically at the printing precision
+            m = re.match(r'\s*[-+]?[0-9.]+(?:[eE][-+]?\d+)?', actual[pos:pos + 60])
+            if m and m.group(0).strip() not in ('', '.', '-', '+'):
+                try:
+                    a = float(m.group(0)); qf = float(q)
+                    if abs(a - qf) <= QTOL.get(f, 1e-9 * max(1.0, abs(qf))) and len(m.group(0)) - len(m.group(0).lstrip()) == len(s) - len(s.lstrip()):
+                        pos += len(m.group(0)); continue
+                except ValueError: pass
         got = actual[pos:pos + len(s)]
         if got != s:
             ok = False
